@@ -254,6 +254,102 @@ def r19_3(ctx: Ctx) -> None:
            "an area that itself spans the origin goes through the dedicated adjustment with the record length", form="")
 
 
+JS = "antismash/outputs/html/js.py"
+
+
+def r19_5(ctx: Ctx) -> None:
+    """ gene coordinates of a spanning region: a gene is moved past the record length with both ends exactly when it lies
+        in the post-origin part; a gene that itself spans the origin only has its end moved """
+    qual = "convert_cds_features"
+    func = ctx.fn(JS, qual, inline=True)
+    cfg = CFG(func)
+    loops = [n for n in walk_local(func) if isinstance(n, ast.For) and isinstance(n.target, ast.Name)]
+    if not loops:
+        raise AnalysisError(f"{qual}: loop over the genes not found")
+    feat = loops[0].target.id
+    start_names = {txt(n.targets[0]) for n in walk_local(func) if isinstance(n, ast.Assign)
+                   and txt(n.value) in (f"{feat}.start + 1", f"1 + {feat}.start", f"{feat}.location.start + 1")}
+    end_names = {txt(n.targets[0]) for n in walk_local(func) if isinstance(n, ast.Assign)
+                 and txt(n.value) in (f"{feat}.end", f"{feat}.location.end")}
+    if len(start_names) != 1 or len(end_names) != 1:
+        raise AnalysisError(f"{qual}: the drawn start / end of a gene were not found")
+    start, end = start_names.pop(), end_names.pop()
+
+    def shifts(name: str):
+        out = []
+        for node in walk_local(func):
+            if isinstance(node, ast.AugAssign) and isinstance(node.op, ast.Add) and txt(node.target) == name \
+                    and txt(inline_reaching(cfg, node, node.value)) == "len(record)":
+                out.append(node)
+            elif isinstance(node, ast.Assign) and txt(node.targets[0]) == name and isinstance(node.value, ast.BinOp) \
+                    and isinstance(node.value.op, ast.Add) and name in (txt(node.value.left), txt(node.value.right)) \
+                    and "len(record)" in (txt(inline_reaching(cfg, node, node.value.left)), txt(inline_reaching(cfg, node, node.value.right))):
+                out.append(node)
+        return out
+    start_shifts, end_shifts = shifts(start), shifts(end)
+    if not start_shifts or not end_shifts:
+        raise AnalysisError(f"{qual}: shifts of gene coordinates by the record length not found")
+    mapping = {f"{feat}.start": "f_s", f"{feat}.end": "f_e", "region.end": "r_e", "region.start": "r_s",
+               f"{feat}.location.start": "f_s", f"{feat}.location.end": "f_e",
+               "region.location.parts[-1].end": "r_e", "region.location.parts[0].start": "r_s",
+               "region.location.parts[1].end": "r_e"}
+    # the region spans the origin (r_e < r_s); a gene inside it is post-origin, pre-origin, or spans the origin itself
+    # (then its start is in the pre-origin part and its end in the post-origin part: f_e < f_s)
+    pre = parse("r_e < r_s and ((f_s < f_e and (f_e <= r_e or f_s >= r_s)) or (f_e < f_s and f_s >= r_s and f_e <= r_e))")
+    for index, node in enumerate(start_shifts):
+        region_spans = False
+        placement = []
+        for expr, truth in path_facts(cfg, node):
+            resolved = inline_reaching(cfg, expr, expr, keep={feat})
+            if txt(resolved) == "region.crosses_origin()":
+                region_spans = region_spans or truth
+                continue
+            placement.append((resolved, truth))
+        ctx.ob("R19.5", JS, node, qual, f"start shift#{index} only in spanning regions", region_spans,
+               "gene coordinates are moved past the record length only in a region that spans the origin", form="")
+        ok = False
+        form = " and ".join(("" if t else "not ") + txt(e) for e, t in placement)
+        if len(placement) == 1 and placement[0][1] and isinstance(placement[0][0], ast.Call) \
+                and last_attr(placement[0][0]) == "is_contained_by" and txt(placement[0][0].func.value) == feat \
+                and txt(placement[0][0].args[0]) in ("region.location.parts[-1]", "region.location.parts[1]"):
+            ok = True
+        elif placement:
+            terms = [e if t else ast.UnaryOp(op=ast.Not(), operand=e) for e, t in placement]
+            cond = terms[0] if len(terms) == 1 else ast.BoolOp(op=ast.And(), values=terms)
+            try:
+                class ByText(ast.NodeTransformer):
+                    def generic_visit(self, node):  # noqa: N802
+                        if isinstance(node, ast.expr) and txt(node) in mapping:
+                            return ast.Name(id=mapping[txt(node)], ctx=ast.Load())
+                        return super().generic_visit(node)
+                from ..astutil import clone
+                renamed = ast.fix_missing_locations(ByText().visit(clone(cond)))
+                spanning_feature = ast.parse("f_e < f_s", mode="eval").body
+                # calls such as feature.crosses_origin() are expressed through the coordinates
+                class Sub(ast.NodeTransformer):
+                    def visit_Call(self, call):  # noqa: N802
+                        if txt(call) == f"{feat}.crosses_origin()":
+                            return spanning_feature
+                        return self.generic_visit(call)
+                renamed = ast.fix_missing_locations(Sub().visit(renamed))
+                ok, cex, _ = decide(renamed, parse("f_s < f_e and f_e <= r_e"), pre=pre)
+                form += f"  ({'equivalent to: a non-spanning gene in the post-origin part' if ok else f'differs, e.g. {cex}'})"
+            except OutsideFragment as err:
+                ctx.cannot("R19.5", JS, node, qual, f"start shift#{index} placement", str(err))
+                continue
+        ctx.ob("R19.5", JS, node, qual, f"start shift#{index} placement", ok,
+               "the start of a gene is moved past the record length exactly when the gene lies in the post-origin part of the "
+               "region (a gene that itself spans the origin starts before the origin and keeps its start)", form=form)
+    # the end is moved whenever the start is, and additionally for genes that span the origin themselves
+    start_nodes = {cfg.n(n) for n in start_shifts}
+    paired = all(any(cfg.dominates(cfg.n(s), cfg.n(e)) or cfg.dominates(cfg.n(e), cfg.n(s)) for e in end_shifts) for s in start_shifts)
+    alone = [e for e in end_shifts if not any(cfg.dominates(s, cfg.n(e)) or cfg.dominates(cfg.n(e), s) for s in start_nodes)]
+    ok = paired and len(alone) == 1 and f"{feat}.crosses_origin()" in {txt(inline_reaching(cfg, x, x, keep={feat}))
+                                                                      for x, t in path_facts(cfg, alone[0]) if t} if alone else False
+    ctx.ob("R19.5", JS, end_shifts[0], qual, "end shifts", bool(ok),
+           "the end is moved together with the start, and on its own exactly for genes that span the origin", form="")
+
+
 REGION = "antismash/common/secmet/features/region/structures.py"
 
 
@@ -319,3 +415,5 @@ def run(ctx: Ctx) -> None:
     r19_3(ctx)
     ctx.rule("R19.4", "spanning-region sort key tests the coordinate it shifts", floor=1)
     r19_4(ctx)
+    ctx.rule("R19.5", "gene coordinates of a spanning region: post-origin genes shifted, spanning genes end-shifted", floor=3)
+    r19_5(ctx)
